@@ -59,6 +59,23 @@ CHECKS.update({
     technique="Coq proof (totality of the search step) + correspondence + fault search on legal extremes",
     ref="DESIGN.md section 7 C04"),
 })
+CHECKS.update({
+ "C10": dict(
+    text="FusionART is modelled as a kernel over the BaseART machinery (vector of channel vigilances; activation = left-to-right gamma-weighted sum; per-channel match tests; channel-wise update / new weight on slices, fused weight split by the module weight lengths). Proved (Coq): resonance needs every channel's test to pass, update/new are channel-wise concatenations, every fused category is the fold of the channel-wise rule over exactly its members (axiom-free, from the generic fold theorem), one channel with gamma=1 computes the bare module's activation (exact reals). Tied to /repo by the exact correspondence of FusionART histories (1-4 channels, reset functions, all modes); channel refinement, equal counts, concatenation, public choice/match vs modules, one-channel-vs-bare, channel permutation and long-weight modules are checked on the implementation.",
+    note="Trusted: Coq kernel (+ stdlib real axioms for the one-channel theorem); correspondence with Fuzzy/ART2-A channels at exact rationals; channel-permutation invariance and long-weight modules are implementation-side checks only (no theorem).",
+    technique="Coq proof (kernel-level + generic fold theorem) + model/implementation correspondence",
+    ref="DESIGN.md section 7 C10"),
+ "C11": dict(
+    text="Proved (Coq): with channels skipped the fused activation does not read the skipped columns (axiom-free), adding the constant contributed by skipped channels does not change the arg-max (exact reals), split_channel_data inverts join_channel_data on the supplied channels for any skip set (axiom-free); negative indices are normalised in the model as in the code. Tied to /repo by the correspondence of predict(skip_channels=...) with positive and negative indices; filler independence, arg-max over the remaining channels, predict_regression = target-channel centre, join/split and prepare/restore inverses are checked on the implementation.",
+    note="Trusted: as C10; prepare/restore round trip is an implementation-side numeric check (its exact-real statement is C18's).",
+    technique="Coq proof + correspondence",
+    ref="DESIGN.md section 7 C11"),
+ "C16": dict(
+    text="Proved (Coq, exact reals): SARSA targets equal clip(Q_t + alpha (r_t + lambda Q_{t+1} - Q_t), 0, 1) for every transition but the last, lie in [0,1], their complement coding passes Fuzzy ART validation, with Q = 0 and alpha = 1 the target is the reward; get_action returns the first maximiser of the predicted rewards. Tied to /repo by (i) the FusionART correspondence run on FALCON's own fusion_art after fit / partial_fit on the joined rows and (ii) calculate_SARSA vs the Gallina sarsa_targets at exact rationals over several episodes; get_rewards / get_action (max and min, ties) are checked on the implementation.",
+    note="Trusted: as C10; reward/action modules Fuzzy ART; get_action for 1-D reward centres; 'r alone before training' is read as the same formula with Q = 0.",
+    technique="Coq proof + correspondence",
+    ref="DESIGN.md section 7 C16"),
+})
 NOT_YET = {}
 def main():
     props = [json.loads(l) for l in open(os.path.join(V, "properties.jsonl"))]
